@@ -19,6 +19,13 @@ Oracle: vlib/ref/cleanup.py (judge of a pre/post snapshot pair; cross-checked on
      so that nothing is cached in BlobManager.blobs): their usage has two readings (counted / not counted); U1-U5 are
      reported only when violated under both, and U7 fires when neither reading satisfies all clauses of the pass (or of all
      passes of the scenario: one daemon has one accounting)
+  U8 histories with a pass that does not run to its end (pass field `cut`): the clean() call / the cleaning_loop task is cancelled
+     (the blob_clean request goes away, the component is stopped) or a storage / blob-manager call of the pass fails, at the n-th
+     usage query / blob listing / stop_all_files / delete_blobs call of that pass; later passes run on the SAME DiskSpaceManager.
+     The interrupted pass is judged on the must-not-delete clauses only (U1, U2, U3 class, U5).  Every later clean() / loop pass
+     that RETURNS is a cleanup pass whether or not the _clean hook fired: a class whose sub-pass the hook did not see is judged
+     on the harness's own snapshots around the call (keys C19/U8/clean-returned-without-<class>-pass/<clause>/<history>).  The
+     harness never overlaps passes and waits for the interrupted one to be over, so no other pass can be doing that call's work
 
 Fires on the unchanged tree (both are code defects, see the final report of the builder):
   C19/U1/deleted-while-within-limit/content   disk_space_manager.py:51  `a == 0 if not net else avail >= 0` parses as a
@@ -52,7 +59,9 @@ RULE = ('scenario = seeded mix of own / downloaded / network-seeded blobs (0-60 
         '_clean(True) / cleaning_loop) x content and network limit each in {0, far below, used-1, used, used+1, far above} '
         'relative to the usage before that pass, optional mutation between passes (blobs / streams added, ownership flipped, '
         'two start-ups with the blob directory away and back, blob files removed behind the running daemon after a plain '
-        'restart or without one: oldest / largest / random subset / all); plus a fixed catalogue of minimal scenarios.  distinct = distinct scenario specification; non-trivial = at least one blob row and one pass')
+        'restart or without one: oldest / largest / random subset / all), in 1 of 8 scenarios one clean / loop pass that is cut short '
+        '(caller cancelled or a storage / blob-manager call failing at the 1st / 2nd usage query, blob listing, stop_all_files or '
+        'delete_blobs call) followed by complete passes on the same DiskSpaceManager; plus a fixed catalogue of minimal scenarios.  distinct = distinct scenario specification; non-trivial = at least one blob row and one pass')
 ASSUMPTIONS = [
     'classes: own = is_mine; content = not own and data/sd blob of a stored stream; network = not own and in no stored stream',
     'the blob_storage_limit is charged with downloaded + own bytes (as the repository integration test expects); 0 = unlimited; '
@@ -64,6 +73,8 @@ ASSUMPTIONS = [
     'worth the excess in whole MiB; blobs of streams without a file row are logged, not demanded',
     'return values of clean()/_clean() and the figures of get_space_used_mb() are compared with the model but only logged (U6, U0): '
     'the statement is silent on them',
+    'a pass that is cut short (caller cancelled, injected failure of one storage / blob-manager call) is judged on what it must not delete '
+    '(U1, U2, U3 class, U5), not on completeness (U3 row+file, U4); a clean() call that returns without raising is a complete pass (U8)',
 ]
 REQUIRED_HITS = [
     'hook._clean_calls', 'hook.delete_blobs_calls', 'pass.content', 'pass.network', 'op.clean', 'op.content', 'op.network', 'op.loop',
@@ -78,6 +89,9 @@ REQUIRED_HITS = [
     'mutate.lose_files', 'mutate.lose_files.after_restart', 'in.finished_row_without_file', 'in.finished_row_without_file.not_loaded_in_manager',
     'U7.checked.content', 'U7.checked.network', 'U7.row_without_file_removed_by_pass.content', 'U7.row_without_file_removed_by_pass.network',
     'U7.holds_only_if_rows_without_file_are_counted',
+    'cut.reached.cancel', 'cut.reached.raise', 'cut.reached.op_clean', 'cut.reached.op_loop', 'cut.sub_pass_judged_on_must_not_delete_clauses',
+    'cut.later_complete_pass.clean', 'cut.later_complete_pass.loop', 'cut.later_complete_pass_with_U4_demanded.content',
+    'cut.later_complete_pass_with_U4_demanded.network',
 ] + [f'limit.{w}.{c}' for w in ('content', 'network') for c in ('zero', 'far_below', 'minus1', 'equal', 'plus1', 'far_above')]
 MIB = 1 << 20
 LIMS = ['zero', 'far_below', 'minus1', 'equal', 'plus1', 'far_above']
@@ -185,7 +199,56 @@ def fixed_specs():
     S.append({'streams': [_stream('dl0', 'dl', [MIB] * 4)], 'net': _net([MIB, MIB]),
               'passes': [_p('clean', 3, 1, pre={'kind': 'lose_files', 'restart': 0, 'labels': ['dl0.3', 'net1']}),
                          _p('clean', 'keep', 'keep', pre={'kind': 'remount'}), _p('clean', 2, 0)]})
+    # a pass that does not run to its end, then complete passes on the same DiskSpaceManager (U8).  The blob_clean call is cancelled
+    # while it waits for its first usage query; own blobs older than the downloaded ones; the third pass finds nothing left to do
+    S.append({'streams': [_stream('own0', 'own', [MIB], t0=10), _stream('dl0', 'dl', [MIB] * 5, t0=500)], 'net': _net([MIB, MIB]),
+              'passes': [_p('clean', 3, 5, cut=_cut('cancel', 'usage')), _p('clean', 'keep', 'keep'), _p('clean', 'keep', 'keep')]})
+    # cancelled at the moment the pass stops the files (just before deleting); the next pass comes from the periodic task
+    S.append({'streams': [_stream('own0', 'own', [MIB], t0=10), _stream('dl0', 'dl', [two, two, MIB], t0=500)], 'net': [],
+              'passes': [_p('clean', 3, 0, cut=_cut('cancel', 'stop_files')), _p('loop', 'keep', 'keep'), _p('clean', 2, 0)]})
+    # the content pass completes, the network pass is cancelled at its usage query / fails at its blob listing
+    S.append({'streams': [_stream('dl0', 'dl', [MIB] * 4)], 'net': _net([MIB] * 4),
+              'passes': [_p('clean', 3, 2, cut=_cut('cancel', 'usage', 2)), _p('clean', 'keep', 'keep'), _p('clean', 2, 1)]})
+    S.append({'streams': [_stream('dl0', 'dl', [MIB] * 4)], 'net': _net([two, MIB, MIB]),
+              'passes': [_p('clean', 3, 0, cut=_cut('raise', 'list', 2)), _p('clean', 'keep', 'keep')]})
+    # a call of the pass fails: database locked at the usage query / at stop_all_files, the first blob file cannot be removed
+    S.append({'streams': [_stream('dl0', 'dl', [MIB] * 4)], 'net': _net([MIB] * 3),
+              'passes': [_p('clean', 2, 1, cut=_cut('raise', 'usage')), _p('clean', 'keep', 'keep')]})
+    S.append({'streams': [_stream('dl0', 'dl', [MIB] * 4)], 'net': _net([MIB] * 3),
+              'passes': [_p('clean', 2, 1, cut=_cut('raise', 'stop_files')), _p('loop', 'keep', 'keep')]})
+    S.append({'streams': [_stream('own0', 'own', [two], t0=10), _stream('dl0', 'dl', [MIB] * 4, t0=500)], 'net': _net([MIB] * 3),
+              'passes': [_p('clean', 4, 1, cut=_cut('raise', 'delete')), _p('clean', 'keep', 'keep'), _p('clean', 'keep', 'keep')]})
+    # the periodic task is stopped while its pass lists the blobs / fails in its pass; started again later
+    S.append({'streams': [_stream('dl0', 'dl', [MIB] * 4)], 'net': _net([MIB] * 3),
+              'passes': [_p('loop', 2, 1, cut=_cut('cancel', 'list')), _p('loop', 'keep', 'keep'), _p('clean', 1, 0)]})
+    S.append({'streams': [_stream('dl0', 'dl', [MIB] * 4)], 'net': _net([MIB] * 3),
+              'passes': [_p('loop', 2, 1, cut=_cut('raise', 'stop_files', 2)), _p('clean', 'keep', 'keep')]})
+    # cancelled while the blobs are being deleted (files first, then rows)
+    S.append({'streams': [_stream('dl0', 'dl', [MIB] * 5)], 'net': _net([MIB] * 3),
+              'passes': [_p('clean', 3, 1, cut=_cut('cancel', 'delete')), _p('clean', 'keep', 'keep'), _p('clean', 2, 0)]})
     return S
+
+
+CUT_AT = ['usage', 'list', 'stop_files', 'delete']
+
+
+def _cut(how, at, nth=1):
+    return {'how': how, 'at': at, 'nth': nth}
+
+
+def add_cut(spec, r):
+    """one clean / loop pass of the scenario does not run to its end; at least one complete clean / loop pass follows"""
+    ps = spec['passes']
+    i = r.randrange(len(ps))
+    p = ps[i]
+    if p['op'] not in ('clean', 'loop'):
+        p['op'] = r.choice(['clean', 'clean', 'loop'])
+    p['cut'] = _cut(r.choice(['cancel'] * 2 + ['raise']), r.choice(CUT_AT + ['usage', 'stop_files']), 1 if r.random() < .7 else 2)
+    if r.random() < .8:     # mostly over a limit, so that the later calls of the pass are reached
+        p['c'], p['n'] = r.choice(['far_below', 'minus1', 'minus1', 'equal']), r.choice(['zero', 'far_below', 'minus1', 'equal'])
+    if i == len(ps) - 1 or r.random() < .7:
+        ps.insert(i + 1, {'op': r.choice(['clean'] * 3 + ['loop']), 'c': 'keep', 'n': 'keep', 'hi': 0, 'pre': None})
+    return spec
 
 
 SIZES_NEAR = [MIB - 1, MIB, MIB + 1, 2 * MIB - 1, 2 * MIB, MIB, 2 * MIB, MIB]
@@ -279,7 +342,10 @@ def gen_cases(rng, tier, shard, nshards):
     for i in range(n):
         x = rng.random()
         scale = 'tiny' if x < .4 else ('small' if x < .85 else 'medium')
-        yield {'fam': 'rand', 'seed': rng.getrandbits(48), 'scale': scale}
+        case = {'fam': 'rand', 'seed': rng.getrandbits(48), 'scale': scale}
+        if i % 8 == 3:
+            case['cut'] = 1
+        yield case
 
 
 # ------------------------------------------------------------------------------------ harness
@@ -521,6 +587,8 @@ def execute(rec, case):
         spec = case['spec']
     else:
         spec = make_spec(random.Random(case['seed']), case['scale'])
+        if case.get('cut'):
+            spec = add_cut(spec, random.Random(case['seed'] ^ 0xC19))
     loop = asyncio.new_event_loop()
     try:
         loop.run_until_complete(asyncio.wait_for(_run(rec, case, spec), 600))
@@ -545,6 +613,7 @@ async def _run(rec, case, spec):
     os.mkdir(env.dl)
     env.labels, env.sd_of = {}, {}
     env.own_at_restart = None
+    env.cut, env.cut_before = None, None                           # the interruption armed for the running pass / the last one that happened
     env.published, env.blobs_of, env.listed_by = set(), {}, {}     # what the harness declared as the user's own through the API
     env.conn = None
     storage = None
@@ -569,8 +638,13 @@ async def _run(rec, case, spec):
                 ret = await orig_clean(is_network_blob)
             except Exception as e:  # noqa  (judged below through the snapshots, re-raised to the caller)
                 err = e
+            except asyncio.CancelledError as e:
+                if not (env.cut and env.cut['fired']):      # not the harness's own interruption of this pass
+                    raise
+                err = e
             records.append({'is_net': bool(is_network_blob), 'pre': pre, 'post': snapshot(env), 'ret': ret, 'err': err,
-                            'order': [h for lst in orders for h in lst], 'lims': lims})
+                            'order': [h for lst in orders for h in lst], 'lims': lims,
+                            'cut': bool(err is not None and env.cut and env.cut['fired'])})
             if err is not None:
                 raise err
             return ret
@@ -662,8 +736,11 @@ async def _run(rec, case, spec):
             del records[:]
             rec.hit('op.' + p['op'])
             raised = None
+            env.cut = dict(p['cut'], fired=False, cancelled=False, calls=0) if p.get('cut') else None
             try:
-                if p['op'] == 'clean':
+                if env.cut:
+                    top_ret = await run_cut(env, dsm, p['op'])
+                elif p['op'] == 'clean':
                     top_ret = await dsm.clean()
                 elif p['op'] == 'content':
                     top_ret = await dsm._clean(False)
@@ -675,8 +752,53 @@ async def _run(rec, case, spec):
                 raised, top_ret = e, None
                 rec.log(f'pass_raised.{type(e).__name__}')
             want = {'clean': [False, True], 'loop': [False, True], 'content': [False], 'network': [True]}[p['op']]
-            if raised is None and [x['is_net'] for x in records] != want:
-                raise RuntimeError(f"hook saw sub-passes {[x['is_net'] for x in records]} for op {p['op']}")
+            seen = [x['is_net'] for x in records]
+            cut, env.cut = env.cut, None
+            cut_short = bool(cut and cut['fired'] and (cut['cancelled'] or raised is not None))
+            if cut:
+                rec.hit('cut.armed')
+                if not cut['fired']:
+                    rec.hit('cut.call_not_reached_pass_completed')      # an ordinary pass, judged as such
+                elif not cut_short:
+                    rec.log('cut.pass_returned_normally_in_spite_of_the_interruption')
+                else:
+                    for k in (cut['how'], 'at_' + cut['at'], 'op_' + p['op'], f"call_{cut['nth']}"):
+                        rec.hit('cut.reached.' + k)
+                    # what the pass had handed to the database thread is done before the harness looks again
+                    await storage.db.run(lambda conn: None)
+                    if records and records[-1]['cut']:
+                        records[-1]['post'] = snapshot(env)
+                    env.cut_before = {'how': cut['how'], 'at': cut['at'], 'nth': cut['nth'], 'op': p['op'], 'pass_index': pi}
+            elif env.cut_before and raised is None and p['op'] in ('clean', 'loop'):
+                rec.hit('cut.later_complete_pass.' + p['op'])
+            history = 'after-interrupted-pass' if env.cut_before and not cut_short else 'no-interruption-before'
+            if raised is None and not cut_short and seen != want:
+                # U8: the call returned, so it was a cleanup pass of both classes.  A class whose sub-pass the hook did not see is judged
+                # on the harness's own snapshots: content in the window before the network sub-pass, network in the window after the
+                # content sub-pass.  Deletions the hook cannot attribute stay a harness error
+                top_post = snapshot(env)
+                missing = [w for w in want if w not in seen]
+                stray = [h for h in cur['blobs'] if h not in top_post['blobs']] + [h for h in cur['disk'] if h not in top_post['disk']]
+                if p['op'] not in ('clean', 'loop') or seen != [w for w in want if w in seen] or (not seen and stray):
+                    raise RuntimeError(f"hook saw sub-passes {seen} for op {p['op']}")
+                for is_net in missing:
+                    cname = 'network' if is_net else 'content'
+                    rec.hit('U8.class_judged_on_snapshots_around_the_call.' + cname)
+                    w_pre = records[-1]['post'] if (is_net and records) else cur
+                    w_post = records[0]['pre'] if (not is_net and records) else top_post
+                    res = ref.judge_pass(w_pre, w_post, is_net, climit, nlimit, None, name=name)
+                    if not res['violations']:
+                        rec.log(f'U8.returned_without_{cname}_pass_and_no_clause_violated')
+                    for key, what, details in res['violations']:
+                        rec.violation(f'C19/U8/clean-returned-without-{cname}-pass/{ref.short_key(key)}/{history}',
+                                      f"{p['op']} returned without raising and without running its {cname} pass"
+                                      + (f" (an earlier pass of this DiskSpaceManager was cut short: {env.cut_before})" if env.cut_before else '')
+                                      + f": {what} | limits blob_storage_limit={climit} network_storage_limit={nlimit}"
+                                        f" | state before: {brief(env, w_pre)}",
+                                      {'pass_index': pi, 'op': p['op'], 'sub_passes_seen_by_the_hook': seen, 'earlier_interrupted_pass': env.cut_before,
+                                       'facts': res['facts'], 'details': details, 'returned': top_ret,
+                                       'blobs_before [label,bytes,added_on,class,status,sd,file-row,disk]': table(env, w_pre),
+                                       'spec': spec if len(json.dumps(spec)) < 6000 else 'see case (seeded)'})
             for x in records:
                 rec.hit('pass.network' if x['is_net'] else 'pass.content')
                 # ownership as the USER declared it (is_mine=True handed to get_blob / store_stream / update_blob_ownership, real publishes),
@@ -702,6 +824,25 @@ async def _run(rec, case, spec):
                                       {'pass_index': pi, 'op': p['op'], 'deleted_own': [name(h) for h in gone][:20],
                                        'spec': spec if len(json.dumps(spec)) < 6000 else 'see case (seeded)'})
                 res = ref.judge_pass(x['pre'], x['post'], x['is_net'], x['lims'][0], x['lims'][1], x['order'], name=name)
+                if x['cut']:
+                    # the sub-pass that was cut short: only what it must not delete (no completeness, no return value, no share in U7)
+                    rec.hit('cut.sub_pass_judged_on_must_not_delete_clauses')
+                    if res['deleted']:
+                        rec.hit('cut.sub_pass_had_deleted_something')
+                    for k, v in res['hits'].items():
+                        if k.startswith(('U1.', 'U2.', 'U3.')):
+                            rec.hit(k, v)
+                    for key, what, details in res['violations']:
+                        if key.startswith(('C19/U1/', 'C19/U2/', 'C19/U3/network-pass-deleted', 'C19/U3/content-pass-deleted', 'C19/U5/')):
+                            rec.violation(key + '/pass-cut-short', f"{what} | the pass was cut short ({cut['how']} at call {cut['nth']} of "
+                                          f"{cut['at']}) | limits blob_storage_limit={x['lims'][0]} network_storage_limit={x['lims'][1]}"
+                                          f" | state before: {brief(env, x['pre'])}",
+                                          {'pass_index': pi, 'op': p['op'], 'cut': cut, 'facts': res['facts'], 'details': details,
+                                           'deletion_order': [name(h) for h in x['order']][:80],
+                                           'spec': spec if len(json.dumps(spec)) < 6000 else 'see case (seeded)'})
+                    continue
+                if env.cut_before and not cut and res['hits'].get('U4.demanded') and p['op'] in ('clean', 'loop'):
+                    rec.hit(f"cut.later_complete_pass_with_U4_demanded.{'network' if x['is_net'] else 'content'}")
                 for k, v in res['hits'].items():
                     rec.hit(k, v)
                 for k, v in res['logs'].items():
@@ -755,7 +896,49 @@ async def _run(rec, case, spec):
         shutil.rmtree(env.tmp, ignore_errors=True)
 
 
-async def run_loop_once(dsm):
+CUT_CALLS = {'usage': ('storage', 'get_stored_blob_disk_usage'), 'list': ('storage', 'get_stored_blobs'),
+             'stop_files': ('storage', 'stop_all_files'), 'delete': ('bm', 'delete_blobs')}
+
+
+async def run_cut(env, dsm, op):
+    """a clean() call (op clean: what the blob_clean API call awaits; op loop: the periodic task) that is interrupted at the n-th call of one
+    of the functions a pass uses: the awaiting task is cancelled while that call is under way (the request goes away / the component
+    is stopped), or the call fails (database locked, blob file not removable).  If the pass never makes that call it completes."""
+    cut = env.cut
+    obj_name, attr = CUT_CALLS[cut['at']]
+    obj = getattr(env, obj_name)
+    had = attr in vars(obj)
+    prev = getattr(obj, attr)
+    target = {}
+
+    def call(*a, **kw):
+        cut['calls'] += 1
+        if cut['calls'] == cut['nth'] and not cut['fired']:
+            cut['fired'] = True
+            if cut['how'] == 'raise':
+                raise PermissionError(13, 'Permission denied') if cut['at'] == 'delete' else sqlite3.OperationalError('database is locked')
+            env.loop.call_soon((target.get('task') or dsm.task).cancel)
+        return prev(*a, **kw)
+    setattr(obj, attr, call)
+    try:
+        if op == 'loop':
+            return await run_loop_once(dsm, cut)
+        target['task'] = asyncio.ensure_future(dsm.clean())
+        try:
+            return await target['task']
+        except asyncio.CancelledError:
+            if not (cut['fired'] and cut['how'] == 'cancel' and target['task'].cancelled()):
+                raise
+            cut['cancelled'] = True
+            return None
+    finally:
+        if had:
+            setattr(obj, attr, prev)
+        else:
+            delattr(obj, attr)
+
+
+async def run_loop_once(dsm, cut=None):
     """one pass through the real cleaning_loop task"""
     done = asyncio.Event()
     orig = dsm.clean
@@ -767,6 +950,10 @@ async def run_loop_once(dsm):
             out['ret'] = await orig()
         except Exception as e:  # noqa
             out['err'] = e
+        except asyncio.CancelledError:
+            if cut is not None and cut['fired'] and cut['how'] == 'cancel':
+                cut['cancelled'] = True
+            raise
         finally:
             done.set()
     dsm.clean = once
